@@ -9,6 +9,7 @@ GROUPS = {  # name -> (order, cell family used for a conforming cell)
     "cubic": 24, "hexagonal": 12, "trigonal": 6, "rhombohedralP": 6, "tetragonal": 8,
     "orthorhombic": 4, "monoclinic_a": 2, "monoclinic_b": 2, "monoclinic_c": 2, "triclinic": 1}
 
+THOROUGH_SCALE = 8      # multiplies every generated-case budget of the thorough tier
 RULE = ("exhaustive part: for each of the ten named groups all elements and all ordered products (closure, identity, "
         "inverses, det=+1, integer entries, order, metric preservation for conforming cells with generated free "
         "parameters) and all 720 orders of calling 6 group constructors + all pairs of the ten (cache purity); "
